@@ -256,14 +256,14 @@ impl FsImg {
 // ---------------------------------------------------------------------------------------------
 // worker (shared protocol with the journal-bytes engine)
 
-struct Worker {
+pub(crate) struct Worker {
     child: Child,
     stdin: ChildStdin,
     stdout: BufReader<ChildStdout>,
 }
 
 impl Worker {
-    fn spawn() -> Worker {
+    pub(crate) fn spawn() -> Worker {
         let exe = std::env::current_exe().expect("exe");
         let mut child = Command::new("sh")
             .arg("-c")
@@ -278,7 +278,7 @@ impl Worker {
         let stdout = BufReader::new(child.stdout.take().expect("stdout"));
         Worker { child, stdin, stdout }
     }
-    fn ask(&mut self, dir: &Path, lz4: bool) -> Option<String> {
+    pub(crate) fn ask(&mut self, dir: &Path, lz4: bool) -> Option<String> {
         self.ask2(dir, lz4, &[], false)
     }
     fn ask2(&mut self, dir: &Path, lz4: bool, names: &[String], append: bool) -> Option<String> {
@@ -298,13 +298,13 @@ impl Worker {
             Ok(_) => Some(reply.trim_end().to_string()),
         }
     }
-    fn kill(mut self) {
+    pub(crate) fn kill(mut self) {
         let _ = self.child.kill();
         let _ = self.child.wait();
     }
 }
 
-fn parse_dump(s: &str) -> Option<Dump> {
+pub(crate) fn parse_dump(s: &str) -> Option<Dump> {
     let mut d = Dump::new();
     for part in s.split(';').filter(|p| !p.is_empty()) {
         let (name, rest) = part.split_once(':')?;
@@ -364,7 +364,7 @@ fn model_dump(m: &Model) -> Dump {
 // ---------------------------------------------------------------------------------------------
 // child: executes a program file under the shim
 
-fn write_mark(s: &str) {
+pub(crate) fn write_mark(s: &str) {
     use std::os::unix::io::FromRawFd;
     // the shim intercepts writes to this descriptor; without the shim the write fails harmlessly
     let mut f = unsafe { std::fs::File::from_raw_fd(1000) };
@@ -637,7 +637,7 @@ fn run_child(plan: &Plan, extra_env: &[(String, String)], tolerant: bool, final_
     })
 }
 
-fn wait_with_timeout(mut child: Child, secs: u64) -> Result<(Option<i32>, String), Deviation> {
+pub(crate) fn wait_with_timeout(mut child: Child, secs: u64) -> Result<(Option<i32>, String), Deviation> {
     let t0 = std::time::Instant::now();
     loop {
         match child.try_wait() {
@@ -749,7 +749,7 @@ fn compute_bounds(recs: &[Rec], ops: &[Op], manual: bool) -> Vec<Bounds> {
     out
 }
 
-fn is_journal(p: &str) -> bool {
+pub(crate) fn is_journal(p: &str) -> bool {
     p.ends_with(".jnl")
 }
 
@@ -912,7 +912,7 @@ impl Verifier {
     }
 }
 
-fn torn_points(r: &Rec, rng: &mut Rng) -> Vec<usize> {
+pub(crate) fn torn_points(r: &Rec, rng: &mut Rng) -> Vec<usize> {
     let n = r.data.len();
     if n <= 1 {
         return vec![];
@@ -1167,7 +1167,7 @@ fn crash_like_case(mode: &str, seed: u64, idx: u64, thorough: bool, stats: &mut 
     res
 }
 
-fn kind_name(k: u32) -> &'static str {
+pub(crate) fn kind_name(k: u32) -> &'static str {
     match k {
         K_OPEN_CREATE => "create",
         K_OPEN_TRUNC => "open-trunc",
@@ -1186,7 +1186,7 @@ fn kind_name(k: u32) -> &'static str {
     }
 }
 
-fn short_path(p: &str) -> String {
+pub(crate) fn short_path(p: &str) -> String {
     let parts: Vec<&str> = p.rsplit('/').take(3).collect();
     parts.into_iter().rev().collect::<Vec<_>>().join("/")
 }
